@@ -4,6 +4,10 @@
 //! number of bytes delivered at the end is exactly what the scanner demanded.
 //! Optional `c=<chunk size>` (scale family): the reader's chunk size; the `bl` bytes then arrive in
 //! reads of `c` bytes.  `d` and `p` are data fields (`common::data_field`).
+//! Families of the default generator: random numerals around the type bounds, random whitespace
+//! strings, zero-padded boundary numerals walked over type x scanner x boundary (`--opt pad` alone),
+//! runs of the scanned class of length 0..40 followed by neighbour-weighted bytes from all 256
+//! values under every buffered amount (`--opt follow` alone).
 use crate::common::*;
 use flussab::{text, DeferredReader};
 
@@ -317,9 +321,353 @@ fn rand_numeral(rng: &mut Rng, ty: &str) -> Vec<u8> {
     s.into_bytes()
 }
 
+/// decimal string + 1
+fn dec_inc(s: &str) -> String {
+    let mut d: Vec<u8> = s.bytes().collect();
+    let mut i = d.len();
+    loop {
+        if i == 0 {
+            d.insert(0, b'1');
+            break;
+        }
+        i -= 1;
+        if d[i] == b'9' {
+            d[i] = b'0';
+        } else {
+            d[i] += 1;
+            break;
+        }
+    }
+    String::from_utf8(d).unwrap()
+}
+
+/// decimal string - 1 (0 stays 0), no leading zeros
+fn dec_dec(s: &str) -> String {
+    if s.bytes().all(|b| b == b'0') {
+        return "0".into();
+    }
+    let mut d: Vec<u8> = s.bytes().collect();
+    let mut i = d.len();
+    loop {
+        i -= 1;
+        if d[i] == b'0' {
+            d[i] = b'9';
+        } else {
+            d[i] -= 1;
+            break;
+        }
+    }
+    let t = String::from_utf8(d).unwrap();
+    let t = t.trim_start_matches('0');
+    if t.is_empty() { "0".into() } else { t.to_string() }
+}
+
+/// The bytes that FOLLOW a scanned run: the first one is not in `class` (so the run has the
+/// intended length) and is, half of the time, a one-bit or ±1 neighbour of a byte of the scanned
+/// class — the bytes a word-at-a-time scanner (has-zero tricks, range masks) confuses with the
+/// class; the rest mixes such neighbours, class bytes and arbitrary bytes (`free_text`), in lengths
+/// that leave fewer than 8, 8..16 and more than 16 bytes behind the run.  Empty = end of input.
+fn follow_bytes(rng: &mut Rng, class: &[u8]) -> Vec<u8> {
+    if rng.chance(1, 8) {
+        return vec![];
+    }
+    let mut out = vec![];
+    loop {
+        let b = match rng.below(4) {
+            0 | 1 => {
+                let c = *rng.pick(class);
+                neighbour_byte(rng, c)
+            }
+            2 => rng.next() as u8,
+            _ => *rng.pick(b" \n\t-/:a}0"),
+        };
+        if !class.contains(&b) {
+            out.push(b);
+            break;
+        }
+    }
+    let n = match rng.below(4) {
+        0 => rng.below(7),
+        1 => rng.range(7, 16),
+        2 => rng.range(16, 30),
+        _ => rng.below(3),
+    };
+    for _ in 0..n {
+        let b = match rng.below(6) {
+            0 | 1 => {
+                let c = *rng.pick(class);
+                neighbour_byte(rng, c)
+            }
+            2 => *rng.pick(class),
+            3 => rng.next() as u8,
+            4 => *out.last().unwrap(),
+            _ => free_text(rng, &[], 1).first().copied().unwrap_or(b'x'),
+        };
+        out.push(b);
+    }
+    out
+}
+
+/// How much is buffered before the call, relative to the scanned region `off .. off + run` of
+/// `total` bytes: nothing, everything, 8 / 9 / 15 / 16 / 17 bytes from the offset, the end of the
+/// run exactly, ± 1, + 8, + 16, a split inside the run, fewer than 8.
+fn buffered_amount(rng: &mut Rng, off: usize, run: usize, total: usize) -> usize {
+    match rng.below(16) {
+        0 => 0,
+        1 | 2 => total + 3,
+        3 => off + 8,
+        4 => off + 9,
+        5 => off + 15,
+        6 => off + 16,
+        7 => off + 17,
+        8 => off + run,
+        9 => off + run + 1,
+        10 => (off + run).saturating_sub(1),
+        11 => off + run + 8,
+        12 => off + run + 16,
+        13 => off + rng.below(run as u64 + 1) as usize,
+        14 => off + rng.below(8) as usize,
+        _ => rng.below(total as u64 + 2) as usize,
+    }
+}
+
+const DIGIT_CLASS: &[u8] = b"0123456789";
+
+static PAD_IDX: std::sync::atomic::AtomicUsize = std::sync::atomic::AtomicUsize::new(0);
+const BOUNDARY_KINDS: usize = 17;
+
+/// Boundary numeral `kind` of integer type `ty`: (negative, magnitude without leading zeros).
+fn boundary_numeral(rng: &mut Rng, ty: &str, kind: usize) -> (bool, String) {
+    let (absmin, max) = type_bounds(ty);
+    let pow10 = |rng: &mut Rng| -> String {
+        // 10^k for k up to one digit more than the type holds
+        let k = rng.range(1, max.len() as u64 + 1) as usize;
+        format!("1{}", "0".repeat(k))
+    };
+    match kind {
+        0 => (false, max),
+        1 => (false, dec_inc(&max)),
+        2 => (false, dec_dec(&max)),
+        3 => (true, absmin),
+        4 => (true, dec_inc(&absmin)),
+        5 => (true, dec_dec(&absmin)),
+        6 => (false, "0".into()),
+        7 => (true, "0".into()),
+        8 => (false, "1".into()),
+        9 => (true, "1".into()),
+        10 => (false, dec_dec(&pow10(rng))),
+        11 => (false, pow10(rng)),
+        12 => (false, dec_inc(&pow10(rng))),
+        13 => (true, dec_dec(&pow10(rng))),
+        14 => (true, pow10(rng)),
+        15 => (true, dec_inc(&pow10(rng))),
+        _ => (true, max),
+    }
+}
+
+/// Zero-PADDED boundary numerals (C13): the run walks every integer type x scanner x boundary value
+/// (MIN, MIN±1, MAX, MAX±1, 0, -0, ±1, 10^k and 10^k±1 of both signs); each gets 0..40 zeros
+/// behind the sign and a buffered amount from `buffered_amount` or a split inside the padding /
+/// inside the value.  A padded numeral puts the significant digits into a later 8-byte word of
+/// the optimised scanners with a zero accumulator, where the narrow types meet their bounds.
+fn gen_padded_boundary(rng: &mut Rng) -> String {
+    // the combinations that are not duplicates of one another: the unsigned scanners stop at a
+    // sign (one `-0` is kept for that), an unsigned type has the single negative bound `-0`
+    static COMBOS: std::sync::OnceLock<Vec<(&'static str, &'static str, usize)>> = std::sync::OnceLock::new();
+    let combos = COMBOS.get_or_init(|| {
+        let mut v = vec![];
+        for kind in 0..BOUNDARY_KINDS {
+            for &func in INT_FNS {
+                for &ty in INT_TYPES {
+                    let negative = matches!(kind, 3 | 4 | 5 | 7 | 9 | 13 | 14 | 15 | 16);
+                    let keep = if !func.starts_with('s') { !negative || kind == 7 } else { !(ty.starts_with('u') && matches!(kind, 5 | 7)) };
+                    // the model's cost is per byte: the walk spends about the same number of
+                    // bytes on every width (3..5 digit bounds are visited 4x as often as 39 digit ones)
+                    let weight = match type_bounds(ty).1.len() { 0..=5 => 4, 6..=10 => 3, 11..=20 => 2, _ => 1 };
+                    if keep {
+                        for _ in 0..weight {
+                            v.push((ty, func, kind));
+                        }
+                    }
+                }
+            }
+        }
+        v
+    });
+    let idx = PAD_IDX.fetch_add(1, std::sync::atomic::Ordering::Relaxed);
+    let (ty, func, kind) = combos[idx % combos.len()];
+    let (neg, mag) = boundary_numeral(rng, ty, kind);
+    // 0..40 zeros; half of the cases stay within two words
+    let pad = if rng.chance(1, 2) { rng.range(0, 16) } else { rng.range(0, 40) } as usize;
+    let off = if rng.chance(2, 3) { 0 } else { rng.range(1, 9) as usize };
+    let mut data: Vec<u8> = (0..off).map(|_| *rng.pick(b" x-07\n")).collect();
+    if neg {
+        data.push(b'-');
+    }
+    data.extend(std::iter::repeat(b'0').take(pad));
+    data.extend_from_slice(mag.as_bytes());
+    let run = neg as usize + pad + mag.len();
+    let mut follow = follow_bytes(rng, DIGIT_CLASS);
+    // two of three visits of a combination have everything buffered (the mode the word-at-a-time
+    // paths are written for), mostly with at least a word of input behind the numeral
+    let all_buffered = (idx / combos.len()) % 3 != 2;
+    if all_buffered && !follow.is_empty() && follow.len() < 9 && rng.chance(2, 3) {
+        for _ in 0..rng.range(8, 12) {
+            follow.push(if rng.chance(1, 2) { *rng.pick(b" 0123456789-\nz") } else { rng.next() as u8 });
+        }
+    }
+    data.extend(follow);
+    let bl = match rng.below(6) {
+        _ if all_buffered => data.len() + rng.below(4) as usize,
+        // split inside the padding / inside the value
+        0 => off + neg as usize + rng.below(pad as u64 + 1) as usize,
+        1 => off + neg as usize + pad + rng.below(mag.len() as u64 + 1) as usize,
+        _ => buffered_amount(rng, off, run, data.len()),
+    };
+    format!("scan fn={} ty={} d={} off={} bl={} p=-", func, ty, hex(&data), off, bl)
+}
+
+/// Digit runs of every length 0..40 (leading zeros allowed) with the neighbour-weighted bytes
+/// behind them, for every integer scanner (C13/C16: the run ends exactly where the digits end).
+fn gen_digit_run_follow(rng: &mut Rng) -> String {
+    let func = *rng.pick(INT_FNS);
+    let ty = *rng.pick(INT_TYPES);
+    let off = if rng.chance(1, 2) { 0 } else { rng.range(1, 9) as usize };
+    let mut data: Vec<u8> = (0..off).map(|_| *rng.pick(b" x-07\n")).collect();
+    let neg = func.starts_with('s') && rng.chance(1, 3);
+    if neg {
+        data.push(b'-');
+    }
+    let n = rng.range(0, 40) as usize;
+    let style = rng.below(4);
+    for j in 0..n {
+        data.push(match style {
+            0 => b'0' + rng.below(10) as u8,
+            1 => *rng.pick(b"09"),
+            2 if j < n / 2 => b'0',
+            _ => b'0' + rng.below(10) as u8,
+        });
+    }
+    let run = neg as usize + n;
+    data.extend(follow_bytes(rng, DIGIT_CLASS));
+    let bl = buffered_amount(rng, off, run, data.len());
+    format!("scan fn={} ty={} d={} off={} bl={} p=-", func, ty, hex(&data), off, bl)
+}
+
+/// Whitespace helpers (C16): a run of the scanned class of every length 0..40 followed by
+/// neighbour-weighted bytes from all 256 values, under every buffered amount.
+fn gen_ws_follow(rng: &mut Rng) -> String {
+    let func = *rng.pick(&["blanks", "blanks", "newline", "next_newline", "next_newline", "fixed"]);
+    let off = if rng.chance(1, 2) { 0 } else { rng.range(1, 12) as usize };
+    let mut data: Vec<u8> = free_text(rng, &[], off);
+    while data.len() < off {
+        data.push(*rng.pick(b" \t\nx"));
+    }
+    data.truncate(off);
+    let n = rng.range(0, 40) as usize;
+    let mut pat: Vec<u8> = vec![];
+    let run;
+    match func {
+        "blanks" => {
+            let style = rng.below(4);
+            for j in 0..n {
+                data.push(match style {
+                    0 => b' ',
+                    1 => b'\t',
+                    2 => if j % 2 == 0 { b' ' } else { b'\t' },
+                    _ => *rng.pick(b" \t"),
+                });
+            }
+            run = n;
+            data.extend(follow_bytes(rng, b" \t"));
+        }
+        "newline" => {
+            let body: Vec<u8> = match rng.below(8) {
+                0 => b"\n".to_vec(),
+                1 => b"\r\n".to_vec(),
+                2 => b"\r".to_vec(),
+                3 => vec![b'\r', neighbour_byte(rng, b'\n')],
+                4 => vec![neighbour_byte(rng, b'\r'), b'\n'],
+                5 => vec![neighbour_byte(rng, b'\n')],
+                6 => vec![neighbour_byte(rng, b'\r')],
+                _ => vec![],
+            };
+            run = body.len();
+            data.extend(body);
+            if rng.chance(3, 4) {
+                data.extend(follow_bytes(rng, b"\r\n"));
+            }
+        }
+        "next_newline" => {
+            // a line body of n bytes without `\n`: neighbours of `\n` and `\r`, `\r` itself, anything
+            for _ in 0..n {
+                loop {
+                    let b = match rng.below(6) {
+                        0 | 1 => neighbour_byte(rng, b'\n'),
+                        2 => neighbour_byte(rng, b'\r'),
+                        3 => b'\r',
+                        4 => rng.next() as u8,
+                        _ => 0x20 + rng.below(0x5f) as u8,
+                    };
+                    if b != b'\n' {
+                        data.push(b);
+                        break;
+                    }
+                }
+            }
+            run = n + 1;
+            if rng.chance(5, 6) {
+                data.push(b'\n');
+                if rng.chance(2, 3) {
+                    data.extend(follow_bytes(rng, b"\n"));
+                }
+            }
+        }
+        _ => {
+            // fixed: a pattern of n bytes; the input has it exactly, with one byte replaced by a
+            // neighbour, or cut short
+            pat = (0..n).map(|_| match rng.below(3) { 0 => rng.next() as u8, 1 => *rng.pick(b"p cnf\r\n\t09"), _ => 0x20 + rng.below(0x5f) as u8 }).collect();
+            let mut body = pat.clone();
+            match rng.below(4) {
+                0 if n > 0 => {
+                    let j = rng.below(n as u64) as usize;
+                    body[j] = neighbour_byte(rng, body[j]);
+                }
+                1 if n > 0 => {
+                    let j = rng.below(n as u64) as usize;
+                    body.truncate(j);
+                }
+                _ => {}
+            }
+            run = body.len();
+            data.extend(body);
+            if rng.chance(3, 4) {
+                let class: Vec<u8> = if pat.is_empty() { b" ".to_vec() } else { pat.clone() };
+                data.extend(follow_bytes(rng, &class[class.len() - 1..]));
+            }
+        }
+    }
+    let bl = buffered_amount(rng, off, run, data.len());
+    format!("scan fn={} ty=- d={} off={} bl={} p={}", func, hex(&data), off, bl, hex(&pat))
+}
+
 pub fn gen_case(rng: &mut Rng, thorough: bool) -> String {
     if cli_opt_has("scale") {
         return gen_scale(rng, thorough);
+    }
+    // `--opt pad` / `--opt follow`: only the padded boundary numerals / only the follow-byte cases
+    if cli_opt_has("pad") {
+        return gen_padded_boundary(rng);
+    }
+    if cli_opt_has("follow") {
+        return if rng.chance(1, 4) { gen_digit_run_follow(rng) } else { gen_ws_follow(rng) };
+    }
+    // the three families below take a third of the integer cases and 4/10 of the whitespace cases
+    match rng.below(30) {
+        0..=4 => return gen_padded_boundary(rng),
+        5 => return gen_digit_run_follow(rng),
+        6..=9 => return gen_ws_follow(rng),
+        _ => {}
     }
     if rng.chance(2, 3) {
         let func = *rng.pick(INT_FNS);
@@ -628,6 +976,11 @@ fn term_field(rng: &mut Rng) -> String {
     if rng.chance(1, 5) {
         return "-".into();
     }
+    if rng.chance(1, 4) {
+        // neighbour-weighted bytes from all 256 values behind the run
+        let f = follow_bytes(rng, DIGIT_CLASS);
+        return if f.is_empty() { "-".into() } else { hex(&f) };
+    }
     let mut t = vec![if rng.chance(2, 3) { *rng.pick(b" \n\t-/:a}") } else { rng.next() as u8 }];
     if t[0].is_ascii_digit() {
         t[0] = b'/';
@@ -791,14 +1144,26 @@ fn gen_scale_case(rng: &mut Rng, dim: usize, size: usize, sizes: &[usize]) -> St
                     _ => format!("r{}.20+r{}.09", size - size / 3, size / 3),
                 }
             } else {
-                match rng.below(4) {
+                match rng.below(5) {
                     0 => format!("r{}.61", size),
                     1 => format!("r{}.0d", size),
                     2 => format!("r{}.20", size),
+                    // a line of one-bit / ±1 neighbours of `\n`
+                    3 => {
+                        let mut b = neighbour_byte(rng, b'\n');
+                        if b == b'\n' { b = 0x8a; }
+                        format!("r{}.{:02x}", size, b)
+                    }
                     _ => format!("r{}.630d+{}", size / 2, if size % 2 == 1 { "0b" } else { "-" }),
                 }
             };
-            let term = if rng.chance(1, 4) { "-".to_string() } else if dim == D_BLANKS { hex(*rng.pick(&[&b"x "[..], b"\n ", b"1\t", b"\r"])) } else { hex(*rng.pick(&[&b"\n"[..], b"\na", b"\n\n"])) };
+            let term = if rng.chance(1, 4) {
+                "-".to_string()
+            } else if rng.chance(1, 2) {
+                // neighbour-weighted bytes from all 256 values behind the run
+                let f = if dim == D_BLANKS { follow_bytes(rng, b" \t") } else { let mut f = vec![b'\n']; f.extend(follow_bytes(rng, b"\n")); f };
+                if f.is_empty() { "-".to_string() } else { hex(&f) }
+            } else if dim == D_BLANKS { hex(*rng.pick(&[&b"x "[..], b"\n ", b"1\t", b"\r"])) } else { hex(*rng.pick(&[&b"\n"[..], b"\na", b"\n\n"])) };
             let total = off + size;
             let bl = *rng.pick(&[0usize, 0, off + size / 2, total - 1, total, total + 1, total + 9, off + 8]);
             let c = pick_chunk(rng, bl, &sizes);
